@@ -85,6 +85,15 @@ def Expr.wt (te : C.TyEnv) : Expr → Bool
     "non-empty", the `String` class converts differently; `range("a")` / `sleep("a")` raise) -/
 def Expr.okCond (te : C.TyEnv) (c : Expr) : Bool := c.wt te && inferTy te c != .string
 
+/-- W6: target and `return` of a call: a procedure call has neither; the value of a `return e` may be dropped (`f(args)`) or assigned
+    to a name declared with the type inferred for `e` under the declarations `te'` of the body; `x = f(…)` with a procedure `f` (the
+    value `None`) is outside -/
+def callRetOk (te te' : C.TyEnv) : Option String → Option Expr → Bool
+  | none, none => true
+  | none, some e => e.wt te'
+  | some y, some e => e.wt te' && (te.lookup y == some (inferTy te' e))
+  | some _, none => false
+
 /-- statements below the top level; `te` holds the globals declared so far plus the loop variables in scope;
     `allAssigned` are all names assigned anywhere in the program -/
 def Stmt.okNested (allAssigned : List String) (te : C.TyEnv) : Stmt → Bool
@@ -106,7 +115,16 @@ def Stmt.okNested (allAssigned : List String) (te : C.TyEnv) : Stmt → Bool
   | .write e => e.wt te && inferTy te e != .bool
   | .sleep e => e.okCond te
   | .brk => true
-  | .call _ _ _ _ _ _ _ _ => false          -- W6, increment 1: calls are modelled (both semantics, `tr`, ties) but not yet proved
+  -- W6 (increments 2, 3): a call `f(args)` / `x = f(args)`: well-typed arguments of exactly the parameter types, distinct parameters
+  -- that the body never assigns, no tuple assignment in the body (`funShapeOk`); the body is a nested statement of the fragment
+  -- under its own declarations — parameters, then the locals first assigned at its top level (`funDecls`) — and the names it
+  -- assigns are among `allAssigned` (so they are no `for` variables); the `return` expression is well typed under those
+  -- declarations and the target is declared with its type (`callRetOk`)
+  | .call x _ ps _ _ body ret args =>
+    args.all (fun e => e.wt te) && (args.map (inferTy te) == ps.map (·.2)) && funShapeOk ps body &&
+    (match funDecls ps body with
+     | some te' => body.okNested allAssigned te' && body.assigned.all (fun x => allAssigned.contains x) && callRetOk te te' x ret
+     | none => false)
 
 /-- the prologue, statement by statement, threading the declarations exactly as `trTop` does -/
 def Stmt.okTop (allAssigned : List String) (te : C.TyEnv) : Stmt → Option C.TyEnv
@@ -120,7 +138,7 @@ def Stmt.okTop (allAssigned : List String) (te : C.TyEnv) : Stmt → Option C.Ty
   | s => if s.okNested allAssigned te then some te else none
 
 def InF (p : Prog) : Bool :=
-  let all := p.pre.assigned ++ (match p.body with | some b => b.assigned | none => [])
+  let all := p.pre.assigned ++ (match p.body with | some b => b.assigned | none => []) ++ p.helpers.flatMap (·.body.assigned)
   match p.pre.okTop all [] with
   | none => false
   | some te => match p.body with
